@@ -221,6 +221,32 @@ def run(tier, replay=None):
                     break
         if sd:
             ctx.broken.append("correspondence synth (bend histories): %d differing snapshots" % sd)
+        # ---- portamento (implementation only): a key pressed legato glides to its pitch; once the glide has ended (2 s rendered) a
+        # pitch-bend message must leave every held key at key + bend*range
+        phs = []
+        for _ in range(6 if tier == "quick" else 60):
+            keys = rng.sample([48, 52, 55, 60, 64, 67, 72, 76], rng.choice([2, 2, 3]))
+            h = ["new 65536 1", "bank " + bank, "cc 0 65 127", "cc 0 5 %d" % rng.choice([20, 60, 80])]
+            for k in keys:
+                h += ["on 0 %d 100" % k, "gen %d" % rng.choice([64, 656, 4096])]
+            h += ["gen 65536", "gen 65536"]
+            b = rng.choice([0, 4096, 8192, 12288, 16383])
+            h.append("pb 0 %d" % b)
+            phs.append((h, keys, b))
+        pops = [o for h, _, _ in phs for o in h]
+        pimpl, _ = common.run_impl("synth", "\n".join(pops) + "\n", stateless=False)
+        pos3 = 0
+        for h, keys, b in phs:
+            r = pimpl[pos3 + len(h) - 1] if pos3 + len(h) - 1 < len(pimpl) else ""
+            pos3 += len(h)
+            bend_hist += 1
+            got = sorted(int(x) for x in re.findall(r" c\d+\{k1 koff=-?\d+ f=(\d+) ", r))
+            want = sorted(440.0 * 2 ** ((key + (b - 8192) * 256 / 1048576.0 - 69) / 12) * 144 * 2 ** 21 / C["clock"][0] for key in keys)
+            vals = sorted((ft & 0x7FF) * 2 ** (ft >> 11) for ft in got)
+            if not r.startswith("ret=") or len(vals) != len(want) or any(abs(v - w) > 1.01 * 2 ** max(0, (len(bin(int(w))) - 2) - 11) + 1 for v, w in zip(vals, want)):
+                fails.append(("after portamento glides have ended and %r the keyed-on voices stand at %s, key + bend*range gives %s" % (h[-1], vals, [round(w, 1) for w in want]), []))
+                ctx.violate("monitor", "# %s\n%s\n" % (fails[-1][0], "\n".join(x if len(x) < 200 else x[:50] + "..." for x in h)))
+                break
     ctx.cov.update({
         "bend_history_checks": bend_hist,
         "evaluations": len(ops), "distinct_nontrivial": len(set(r.split("ftone=")[1] for r in impl if "ftone=" in r)),
